@@ -6,6 +6,7 @@ CONSTANTS
   AddressInOutput = FALSE
   ObjectHashIsAddress = FALSE
   ExtBufferIsStatic = FALSE
+  WarnLatchIsStatic = FALSE
   DefinesPersist = FALSE
   MaxP = 2
   MaxQ = 2
